@@ -45,6 +45,9 @@ def gen(tier, seed):
             yield {"net": s, "e3": False}
     for s in ["A>>B; B>>C; C>>A", "A>>B; B>>A; B>>C; C>>B; C>>A; A>>C", "A+B>>C; B+C>>A; C+A>>B", "2A>>B; 2B>>C; 2C>>A"]:
         yield {"net": s, "e3": True}
+    # large automorphism groups (120, 720, 36, 576 structure-preserving self-maps)
+    for s in ["A+B+C+D+E>>F", "A+B+C+D+E+F>>G", "A+B+C>>D; D>>E+F+G", "A+B+C+D>>E; E>>A+B+C+D"] + (["A+B+C+D>>G; G>>A+B+E+F"] if tier != "quick" else []):
+        yield {"net": s, "e3": False, "big": True}
 
 
 def sel_graph(G, nkeys, ekeys):
@@ -71,6 +74,14 @@ def canon_digest(Gc, nkeys, ekeys):
 def presentations(net, full=True):
     """(names, order, ids) triples"""
     n = len(net)
+    if max(len(l) for l, r in net) > 5:
+        # many species: a handful of renamings (rotation, reversal, swap) instead of all 3! of the first three names
+        base = ec.SPECIES[: max(len(l) for l, r in net)]
+        k = len(base)
+        for names in (base, base[1:] + base[:1], base[::-1], [base[1], base[0]] + base[2:]):
+            for ids in IDS:
+                yield list(names), tuple(range(n)), (ids[:n] if ids else None)
+        return
     if n <= 3:
         orders = list(itertools.permutations(range(n)))
     else:  # rotations and the reversal
@@ -78,7 +89,7 @@ def presentations(net, full=True):
     for names in NAMESETS:
         for order in orders:
             for ids in IDS:
-                yield names + ["D", "E"], order, (ids[:n] if ids else None)
+                yield names + ["D", "E", "F", "G"], order, (ids[:n] if ids else None)
 
 
 def make(net, names, order, ids):
@@ -242,7 +253,7 @@ def group_worker(args):
         if i % nshards != shard:
             continue
         net = ec.parse_net(case["net"])
-        H = make(net, NAMESETS[0] + ["D", "E"], range(len(net)), None)
+        H = make(net, (NAMESETS[0] + ["D", "E", "F", "G"]), range(len(net)), None)
         for cname, kw in CONFIGS:
             can = CRNCanonicalizer(H, **kw)
             out.append((cname, canon_digest(can.graph(timeout_sec=None), can.node_attr_keys, can.edge_attr_keys), case["net"]))
@@ -259,7 +270,7 @@ def verify_group(args):
     views = []
     for s in nets:
         net = ec.parse_net(s)
-        can = CRNCanonicalizer(make(net, NAMESETS[0] + ["D", "E"], range(len(net)), None), **kw)
+        can = CRNCanonicalizer(make(net, NAMESETS[0] + ["D", "E", "F", "G"], range(len(net)), None), **kw)
         views.append((s, can.G, can.node_attr_keys, can.edge_attr_keys))
     s0, G0, nk, ek = views[0]
     bad = []
